@@ -6,6 +6,7 @@ import (
 	"github.com/taurusgroup/multi-party-sig/pkg/party"
 	"github.com/taurusgroup/multi-party-sig/verif/fw"
 	"github.com/taurusgroup/multi-party-sig/verif/scen"
+	"github.com/taurusgroup/multi-party-sig/verif/sim"
 )
 
 // drawProto draws a protocol family; cmpPerMille is the chance of CMP (expensive).
@@ -32,7 +33,8 @@ func drawNT(c *fw.Ctx, p scen.Proto, maxN int) (int, int) {
 // DoKeygen runs a key generation session to quiescence and returns the material (nil if it failed).
 func DoKeygen(c *fw.Ctx, p scen.Proto, ids []party.ID, t int, tag string, policy bool) (*scen.Material, *scen.Session) {
 	sid := []byte(c.Label("sid", tag))
-	s := scen.NewSession(c, tag, scen.KeygenMk(p, ids, t, sid), nil)
+	mks := withRetry(c, tag, len(ids), p, func() map[party.ID]scen.Mk { return scen.KeygenMk(p, ids, t, sid) })
+	s := scen.NewSession(c, tag, mks, nil)
 	s.Run(c, policy)
 	vals, _ := s.Results()
 	return scen.Collect(p, ids, t, vals), s
@@ -41,10 +43,35 @@ func DoKeygen(c *fw.Ctx, p scen.Proto, ids []party.ID, t int, tag string, policy
 // DoRefresh runs a refresh session over material.
 func DoRefresh(c *fw.Ctx, m *scen.Material, tag string, policy bool) (*scen.Material, *scen.Session) {
 	sid := []byte(c.Label("sid", tag))
-	s := scen.NewSession(c, tag, m.RefreshMk(sid), nil)
+	mks := withRetry(c, tag, len(m.IDs), m.Proto, func() map[party.ID]scen.Mk { return m.RefreshMk(sid) })
+	s := scen.NewSession(c, tag, mks, nil)
 	s.Run(c, policy)
 	vals, _ := s.Results()
 	return scen.Collect(m.Proto, m.IDs, m.T, vals), s
+}
+
+// withRetry: in one case of six the session about to run is a RETRY - a first attempt made with the
+// same start functions (an application that builds its protocol.StartFunc once and calls
+// NewMultiHandler again) lost every message after a drawn step and was abandoned. The retry must
+// behave like a first attempt.
+func withRetry(c *fw.Ctx, tag string, n int, p scen.Proto, build func() map[party.ID]scen.Mk) map[party.ID]scen.Mk {
+	if c.S.Draw(6, "retry-with-same-start-functions") != 5 {
+		return build()
+	}
+	mks := scen.Reusing(build)
+	first := scen.NewSession(c, tag+"-abandoned", mks, nil)
+	budget := n * (n - 1) * 5
+	if p == scen.Doerner {
+		budget = 8
+	}
+	cut := c.S.Draw(budget+1, "first-attempt-cut")
+	first.Net.BeforeDeliver = func(e *sim.Env, to *sim.Node) bool { return first.Net.Steps <= cut }
+	first.Net.Policy = sim.FIFO{}
+	first.Net.Run()
+	c.Res.Steps += first.Net.Steps
+	c.Fault("first_attempt_abandoned_start_functions_reused", 1)
+	first.CheckCrash(c, "abandoned first attempt of "+tag)
+	return mks
 }
 
 // requireAll reports parties that did not complete an all-honest session (completion at quiescence).
